@@ -83,6 +83,14 @@ func derivePrims(c *core.Ctx) map[string]*primInfo {
 			default:
 				if dn, ddir := basicPrim(f); dn != "" && ddir == dir && dn != "Bytes" {
 					pi.Delegate = dn
+				} else if j, ok := movesParamBytes(f, readN, writeN); ok && j < len(call.Common().Args) {
+					// a private helper of the package (readExact(r, n)) that moves as many
+					// bytes as its parameter says
+					if k, isK := core.ConstInt(call.Common().Args[j]); isK {
+						pi.Width = k
+					} else {
+						pi.Width = -1
+					}
 				}
 			}
 		}
@@ -595,4 +603,41 @@ var scalarOracle = map[string]struct {
 	"c": {"Int8", 1, "int8"}, "C": {"Uint8", 1, "uint8"}, "w": {"Int16", 2, "int16"}, "W": {"Uint16", 2, "uint16"},
 	"i": {"Int32", 4, "int32"}, "I": {"Uint32", 4, "uint32"}, "l": {"Int64", 8, "int64"}, "L": {"Uint64", 8, "uint64"},
 	"f": {"Float32", 4, "float32"}, "d": {"Float64", 8, "float64"}, "b": {"Bool", 1, "bool"},
+}
+
+// movesParamBytes: f is an unexported function of type/basic that hands ReadN / WriteN a
+// length which is its own parameter j (directly, or as the length of a buffer it made
+// with that parameter).
+func movesParamBytes(f, readN, writeN *ssa.Function) (int, bool) {
+	if f == nil || f.Object() == nil || f.Object().Exported() || len(f.Blocks) == 0 {
+		return 0, false
+	}
+	idx := -1
+	for _, call := range core.Calls(f) {
+		g := core.StaticCallee(call)
+		if g == nil || (g != readN && g != writeN) {
+			continue
+		}
+		v := core.Canon(core.StripConv(call.Common().Args[2]))
+		if lc, ok := v.(*ssa.Call); ok {
+			if bi, isB := lc.Call.Value.(*ssa.Builtin); isB && bi.Name() == "len" {
+				if mk, isMk := core.Canon(lc.Call.Args[0]).(*ssa.MakeSlice); isMk {
+					v = core.Canon(core.StripConv(mk.Len))
+				}
+			}
+		}
+		p, ok := v.(*ssa.Parameter)
+		if !ok {
+			return 0, false
+		}
+		for i, fp := range f.Params {
+			if fp == p {
+				if idx >= 0 && idx != i {
+					return 0, false
+				}
+				idx = i
+			}
+		}
+	}
+	return idx, idx >= 0
 }
